@@ -500,6 +500,15 @@ impl JoinPlanner {
             return ir;
         }
 
+        // A Union combines the clauses of one head: each clause is its own conjunctive
+        // query and must be planned on its own. Building one join graph over the scans
+        // of all clauses would replace the Union by a single join of every clause's atoms.
+        if let IRNode::Union { inputs } = ir {
+            return IRNode::Union {
+                inputs: inputs.into_iter().map(|i| self.plan_joins(i)).collect(),
+            };
+        }
+
         // Only optimize if there are joins
         if !Self::has_joins(&ir) {
             return ir;
